@@ -228,6 +228,12 @@ def located_part(report, rng, tier):
     n_r, n_v = rendercheck.compare(report, {cid: c["hcl"] for cid, c in cases.items()}, impl, "diag")
     stats["renderings_compared_with_model"] = n_r
     stats["error_variants_rendered"] = n_v
+    import frontcheck
+    order = list(cases)
+    rng.shuffle(order)
+    fres = frontcheck.compare(report, {cid: cases[cid]["hcl"] for cid in order}, impl, "diag", limit=250 if tier == "quick" else 6000)
+    for k_, v_ in fres.items():
+        stats["model_" + k_] = v_
     for cid, c in cases.items():
         blk = impl.get(cid, ["MISSING"])
         rep = {"case": c, "impl": [l[:400] for l in blk]}
